@@ -32,6 +32,18 @@
 (* with den > 0.  TLC integers are 32 bit and TLC raises an error on       *)
 (* overflow, so a result that is printed is exact.                         *)
 (*                                                                         *)
+(* TLC evaluates LET definitions and operator arguments by name, i.e. again *)
+(* at every reference; the operators below therefore bind every            *)
+(* intermediate result once with With(value, LAMBDA x : ...).              *)
+(*                                                                         *)
+(* Theorems: the cheap ones (TypeOK, ExactAtData, ZeroVarianceAtData,      *)
+(* VarianceNonNegative, VarianceLeSillSimple) are invariants of every      *)
+(* enumerated configuration; the others (PermutationInvariantCond/Tgt,     *)
+(* ChunkIndependent, LinearInData, ReproducesConstants, ReproducesDrift,   *)
+(* MeanIrrelevantWhenUnbiased, TrendActsAsMean, DuplicatesMerge) re-solve  *)
+(* modified configurations and are checked in the smaller theorem jobs.    *)
+(* ChunksPartition lives in KrigeSysChunks.                                *)
+(*                                                                         *)
 (* Coincident conditioning points with zero error make the system          *)
 (* singular; the documented behaviour (pseudo inverse) is that they "act   *)
 (* as a single point carrying their mean value": the expected result is    *)
@@ -130,7 +142,9 @@ SillInt(c)         == (c.var + c.nug) * DD(c)
 CovNugInt(c, p, q) == IF Dist2(c, p, q) = 0 THEN SillInt(c) ELSE CovInt(c, p, q)
 
 -----------------------------------------------------------------------------
-(* constraint rows, in the documented order: ones, functional drifts, external drift *)
+(* constraint rows, in the documented order: ones, functional drifts, external drift.
+   External drift values are arbitrary data; here they are two fixed integer functions of the
+   position ("bowl": (x-2)^2 capped at 9, "alt": parity of x), tabulated in out.edc / out.edt. *)
 FTags(c) == (IF c.unb THEN <<"one">> ELSE <<>>)
             \o (IF c.drift = 1 THEN (IF c.dim = 2 THEN <<"x", "y">> ELSE <<"x">>) ELSE <<>>)
             \o (IF c.ext # "none" THEN <<c.ext>> ELSE <<>>)
